@@ -25,6 +25,10 @@ CHECKS = {
    text="As C02 with the whole torn-variant set (prefix lengths, zero-filled, stale tail) and crash / recover / continue / crash sequences: seeded images of each run are continued by a further simulated run whose own trace is enumerated again (depth 2, thorough 3). Per image: the opening process neither dies nor panics, open succeeds whenever a snapshot had been completed, recovered content is exactly one prefix state, the recovered writer accepts a batch that survives close and reopen.",
    note="Trusted: torn-write model = prefix / zero-fill / stale tail of the in-flight file, other files intact; the free-running writer probe in the child is a sample, the deterministic continuation is the forked simulated run; a recovered index is reopened with the segment format it was written with.",
    technique="deterministic simulation + torn-write crash enumeration with fork-from-image continuation (depth >= 2), prefix-consistency oracle"),
+ "C11": dict(level="exploration", ref="3/C11",
+   text="Seeded search over simulated runs on the file-system directory with retention N in {1,2,3}, readers held from the writer and from the live directory, second-writer attempts; after every window with a directory mutation the real directory is scanned and every snapshot parsed: retention, no needed segment file missing or successfully removed, held readers stable, every loaded item and every descriptor released exactly once by the end, immediate reopen after Close, second writer refused. Invariants are evaluated at every quiescent point of every explored run; runs are sampled.",
+   note="Trusted: directory state is observed at window boundaries (one directory operation per window), not in the middle of an operation; handle accounting relies on the Load closer wrapper and the os hook.",
+   technique="deterministic simulation: directory/handle/lock invariants evaluated after every directory operation of seeded runs"),
  "C12": dict(level="fault_enumeration", ref="3/C12",
    text="Storage-corruption fault injection on the snapshot files that simulated runs produce: per chosen file every truncation length, every single-bit flip (sampled on large files in the quick tier), appended tails, zero-fill, garbage and every length field replaced by 2^31..2^64-1, each opened in a child process through the mmap and non-mmap loaders next to older intact snapshots; round trip of every produced snapshot through the exported decoder. Enumeration of the damage space per file, files sampled from runs.",
    note="Trusted: CRC-32 detection guarantees for single-bit flips; allocation is measured as runtime TotalAlloc delta round OpenReader in the child; ids up to 2^64-1 and coverage-guided fuzzing are outside this technique.",
